@@ -110,7 +110,11 @@ def lean_chars(s):
     """A Python str as a Lean `List Char` literal that reduces under decide."""
     if s == '':
         return '([] : List Char)'
-    return '[' + ', '.join('Char.ofNat %d' % ord(c) for c in s) + ']'
+    def one(c):
+        if 32 <= ord(c) < 127 and c not in "'\\":
+            return "'%s'" % c
+        return 'Char.ofNat %d' % ord(c)
+    return '[' + ', '.join(one(c) for c in s) + ']'
 
 
 def lean_str(s):
